@@ -479,6 +479,15 @@ def check_caches(run, modules, rule, functions=None, prog=None):
             nstores += shared_default_results(run, rule, mi)
         for cname, cnode in mi.classes.items():
             _class_level(run, rule, mi, cname, cnode)
+            for d_ in (cnode.body if mi.is_cython else []):
+                if isinstance(d_, ast.AnnAssign) and isinstance(d_.target, ast.Name):
+                    ann_ = getattr(d_, 'cy_type', None) or (d_.annotation.value if isinstance(d_.annotation, ast.Constant) else None)
+                    if isinstance(ann_, str) and (ann_ == 'float' or ann_.startswith('float[')):
+                        nstores += 1
+                        run.subject(rule)
+                        run.fail(rule, '%s|%s|single-precision:%s' % (mi.name, cname, d_.target.id), mi.relpath, d_.lineno,
+                                 "%s declares the field '%s' as a C float: the value stored in it is rounded to single precision while "
+                                 "everything computed from it is double" % (cname, d_.target.id))
             inst = set()
             for f in cnode.body:
                 if isinstance(f, ast.FunctionDef):
@@ -496,6 +505,20 @@ def check_caches(run, modules, rule, functions=None, prog=None):
                 continue
             nstores += local_memos(run, rule, mi, name, fn)
             nstores += last_call_memos(run, rule, mi, name, fn)
+            if mi.is_cython:
+                for d_ in ast.walk(fn):
+                    ann_ = None
+                    if isinstance(d_, ast.AnnAssign) and isinstance(d_.target, ast.Name):
+                        ann_, nm_ = getattr(d_, 'cy_type', None) or (d_.annotation.value if isinstance(d_.annotation, ast.Constant) else None), d_.target.id
+                    elif isinstance(d_, ast.arg) and d_.annotation is not None and isinstance(d_.annotation, ast.Constant):
+                        ann_, nm_ = d_.annotation.value, d_.arg
+                    if isinstance(ann_, str) and (ann_ == 'float' or ann_.startswith('float[') or ann_ == 'const float'):
+                        nstores += 1
+                        run.subject(rule)
+                        run.fail(rule, '%s|%s|single-precision:%s' % (mi.name, name, nm_), mi.relpath, d_.lineno,
+                                 "%s declares '%s' as a C float: every value of the package is a double, so a quantity held in this variable is "
+                                 "rounded to 24 bits and overflows to infinity above 3.4e38 (sums of squares of photon rates do), which changes "
+                                 "results and convergence tests for inputs the double-precision code handles" % (name, nm_))
             from .rules._purity import stale_loop_variable, ascending_index_deletion
             for d_, cont_, idx_ in ascending_index_deletion(fn):
                 nstores += 1
